@@ -125,10 +125,12 @@ def main(argv=None):
                     if probe:
                         g_apply(g, probe, hook, None)
                         g_apply(g, probe, hook, stats)
+            stats['shadow_comparisons'] = stats.get('shadow_comparisons', 0) + shadow_check(run, v, lvl, g.ops, g.impl)
             cases.append((g.ops, g.obs))
             if len(samples) < 4 and k % 67 == 9:
                 samples.append({'version': v, 'level': lvl, 'ops': g.ops, 'codes': g.codes})
         all_cases[v] = cases
+    H.shrink_oracle_failures(run, oracle_on_history, ())
     run.log('implementation side: %d steps, %d read probes (%d repeated), %d chain writes checked, %d failures'
             % (stats['steps'], stats['read_probes'], stats['repeated_probes'], stats['chain_writes_checked'],
                len(run.failures)))
@@ -147,7 +149,8 @@ def main(argv=None):
                 'applied twice - and writes through chains; around every probe the encodings (both trailing_children '
                 'settings), listed descendants (by identity), len and validation report of every live handle are '
                 'compared; after every successful chain write the newly listed elements are compared with the absent '
-                'links of the chain; distinct_nontrivial = distinct (version, level, probe kind, chain depth, outcome)',
+                'links of the chain, and at the end of every history all handles are compared (by value) with the same '
+                'history run WITHOUT its reads on fresh elements; distinct_nontrivial = distinct (version, level, probe kind, chain depth, outcome)',
         'samples': samples,
         'traces_validated_against_impl': evaluated,
         'steps_validated_against_impl': steps,
@@ -158,6 +161,42 @@ def main(argv=None):
         'ElementProxy objects are not retained between operations',
         'the validation report is compared on the implementation only (the validator is C04\'s model)',
     ])
+
+
+def by_value(impl):
+    """encodings and children (names and encodings, in order) of every live handle, by value"""
+    out = []
+    for x in impl.I:
+        try:
+            enc = x.to_er7(impl.ec)
+            if isinstance(x, Segment):
+                enc += '\\' + x.to_er7(impl.ec, trailing_children=True)
+        except Exception as ex:  # noqa
+            enc = '!%d' % segcorr.outcome_code(ex)
+        kids = []
+        for c in x.children.list:
+            try:
+                kids.append((c.name, c.to_er7(impl.ec)))
+            except Exception as ex:  # noqa
+                kids.append((c.name, '!'))
+        out.append((enc, tuple(kids)))
+    return out
+
+
+def shadow_check(run, v, lvl, ops, impl):
+    """the first write materialises the path at its defined position WHATEVER was read before: the same
+    history without its reads, run on fresh elements, must end in the same encodings and children"""
+    if not any(o[0] in READ_KINDS for o in ops):
+        return 0
+    plain = [o for o in ops if o[0] not in READ_KINDS]
+    shadow, _ = H.run_history(v, plain)
+    a, b = by_value(impl), by_value(shadow)
+    if a != b:
+        j = [x != y for x, y in zip(a, b)].index(True) if len(a) == len(b) else -1
+        run.fail('read-changed-later-write', 'the history with its reads ends in %r, the same history without them in %r'
+                 % (a[j][0][:120] if j >= 0 else len(a), b[j][0][:120] if j >= 0 else len(b)),
+                 version=v, level=lvl, handle=j, ops=ops, step=len(ops) - 1)
+    return 1
 
 
 def gen_probe(rng, g):
@@ -291,12 +330,31 @@ def make_hook(run, g, v, lvl, stats, shapes):
     return hook
 
 
+def oracle_on_history(run, v, ops, lvl=None):
+    class G(object):
+        pass
+    g = G()
+    g.ops = []
+    stats = {'steps': 0, 'read_probes': 0, 'read_probes_by_depth': {}, 'repeated_probes': 0, 'chain_writes_checked': 0,
+             'materialised_links': 0, 'name_styles': {'positional': 0, 'long': 0, 'plain': 0}}
+    hook = make_hook(run, g, v, lvl, stats, set())
+
+    def h2(impl, kk, op, ph, d):
+        hook(impl, kk, op, ph, d)
+        if ph == 'after':
+            g.ops.append(op)
+    impl, _ = H.run_history(v, ops, h2)
+    shadow_check(run, v, lvl, ops, impl)
+
+
 def replay(run):
     r = json.load(open(run.replay))
     inp = r.get('input', {})
     ops = inp.get('ops')
     v = inp.get('version', '2.5')
     if ops:
+        oracle_on_history(run, v, ops, inp.get('level'))
+    if False:
         class G(object):
             pass
         g = G()
@@ -309,7 +367,8 @@ def replay(run):
             hook(impl, kk, op, ph, d)
             if ph == 'after':
                 g.ops.append(op)
-        H.run_history(v, ops, h2)
+        impl, _ = H.run_history(v, ops, h2)
+        shadow_check(run, v, inp.get('level'), ops, impl)
     for f in run.failures:
         print('replayed failure:', f['kind'], f['what'])
     run.finish({'evaluations': len(ops or []), 'distinct_nontrivial': 1, 'rule': 'replay of one stored history',
